@@ -2,7 +2,7 @@ import OFCore.PeriodText
 /-!
 # Situation document → simulation (import-free apart from the period model)
 
-Transcription of the REPAIRED code (fixes C12a … C12f and C12gh, C12i, C12k, C12l applied):
+Transcription of the REPAIRED code (fixes C12a … C12f and C12gh, C12i, C12k, C12l, C12n applied):
 
 * `openfisca_core/simulations/simulation_builder.py` : `build_from_dict`, `build_from_entities`,
   `explicit_singular_entities`, `add_person_entity`, `add_group_entity`,
@@ -276,8 +276,11 @@ def inInt64 (i : Int) : Bool := decide (-9223372036854775808 ≤ i ∧ i ≤ 922
 
 def inInt32 (i : Int) : Bool := decide (-2147483648 ≤ i ∧ i ≤ 2147483647)
 
-/-- the C conversion `long → int32` (silent two's-complement wrap) -/
-def wrap32 (i : Int) : Int := (i + 2147483648) % 4294967296 - 2147483648
+/-- `numpy.iinfo(dtype).min <= value <= numpy.iinfo(dtype).max` (repair C12n) for the `int32` of an
+integer variable / the `int16` of an enum index; the value itself is compared, not its truncation -/
+def ratIn (lo hi : Int) (r : Rat) : Bool := decide ((lo : Rat) ≤ r ∧ r ≤ (hi : Rat))
+def ratInInt32 (r : Rat) : Bool := ratIn (-2147483648) 2147483647 r
+def ratInInt16 (r : Rat) : Bool := ratIn (-32768) 32767 r
 
 /-- a list given where one value is expected: `array[index] = sequence` raises (repair C12c) -/
 def listAsScalar (xs : List Doc) : R Val :=
@@ -303,8 +306,8 @@ def checkSetValue (var : Var) (d : Doc) : R Val :=
   | .float, .arr xs => listAsScalar xs
   | .float, .obj _ => .error .situation
   -- int
-  | .int, .int i => if inInt64 i then .ok (.int (wrap32 i)) else .error .situation
-  | .int, .num r => if inInt64 (truncR r) then .ok (.int (wrap32 (truncR r))) else .error .situation
+  | .int, .int i => if ratInInt32 i then .ok (.int i) else .error .situation
+  | .int, .num r => if ratInInt32 r then .ok (.int (truncR r)) else .error .situation
   | .int, .bool b => .ok (.int (if b then 1 else 0))
   | .int, .str s => match numOfText s with
     | .error e => .error e
@@ -337,10 +340,10 @@ def checkSetValue (var : Var) (d : Doc) : R Val :=
   -- enum
   | .enum names, .str s => if s ∈ names then .ok (.enum (names.idxOf s)) else .error .situation
   | .enum names, .int i =>
-    if !inInt64 i then .error .situation
+    if !ratInInt16 i then .error .situation
     else if 0 ≤ i ∧ i < names.length then .ok (.enum i.toNat) else .error .unmodelled
   | .enum _, .bool _ => .error .unmodelled
-  | .enum _, .num r => if inInt64 (truncR r) then .error .unmodelled else .error .situation
+  | .enum _, .num r => if ratInInt16 r then .error .unmodelled else .error .situation
   | .enum _, .arr xs => listAsScalar xs
   | .enum _, .obj _ => .error .situation
 
